@@ -26,14 +26,33 @@ import (
 	"verif/sched/vrt"
 )
 
+// merger hold: scorch's public event callback parks the merger at its pre-merge check (a merger that
+// lags behind), so that the persister sits in its wait-for-the-merger pause when Close arrives.
+type mergeHoldT struct {
+	armed   atomic.Bool
+	release chan int
+}
+
+var mergeHold atomic.Pointer[mergeHoldT]
+
+func init() {
+	scorch.RegistryEventCallbacks["verif-c11-merge-hold"] = func(e scorch.Event) bool {
+		if g := mergeHold.Load(); g != nil && e.Kind == scorch.EventKindPreMergeCheck && g.armed.CompareAndSwap(true, false) {
+			vrt.Recv(g.release)
+		}
+		return true
+	}
+}
+
 type env struct {
-	c      *drv.Ctx
-	engine string
-	kids   []bleve.Index // alias engine: the children (kids[2] is a spare, not a member at the start)
-	idx    bleve.Index
-	closed *atomic.Bool // Close has returned
-	cancel context.CancelFunc
-	ctx    context.Context
+	release func() // lets a held merger go on (must happen before Close is asked to wait for it)
+	c       *drv.Ctx
+	engine  string
+	kids    []bleve.Index // alias engine: the children (kids[2] is a spare, not a member at the start)
+	idx     bleve.Index
+	closed  *atomic.Bool // Close has returned
+	cancel  context.CancelFunc
+	ctx     context.Context
 }
 
 // an operation returns a short outcome token; it reports contract breaks through e.c.Fail.
@@ -186,6 +205,9 @@ var ops = []op{
 	}},
 	{"close", func(e *env) string {
 		was := e.closed.Load()
+		if e.release != nil {
+			e.release()
+		}
 		err := e.idx.Close()
 		if was {
 			if err == nil || !isClosedErr(err) {
@@ -245,6 +267,13 @@ func body(engine string, names []string) func(c *drv.Ctx) {
 			}
 			if engine == "upsidedown" {
 				idx, err = bleve.NewUsing("", m, "upside_down", "gtreap", nil)
+			} else if engine == "scorch-persister-waits-for-merger" || engine == "scorch-persister-waits-for-held-merger" {
+				// the persister pauses after every round until the merger has caught up (2 files = root.bolt + one segment)
+				cf := map[string]interface{}{"scorchPersisterOptions": map[string]interface{}{"PersisterNapUnderNumFiles": 2}}
+				if engine == "scorch-persister-waits-for-held-merger" {
+					cf["eventCallbackName"] = "verif-c11-merge-hold"
+				}
+				idx, err = bleve.NewUsing(c.Dir+"/idx", m, scorch.Name, scorch.Name, cf)
 			} else if engine == "upsidedown-boltdb" {
 				idx, err = bleve.NewUsing(c.Dir+"/idx", m, "upside_down", "boltdb", nil)
 			} else {
@@ -259,6 +288,21 @@ func body(engine string, names []string) func(c *drv.Ctx) {
 		var closed atomic.Bool
 		ctx, cancel := context.WithCancel(context.Background())
 		e := &env{c: c, engine: engine, kids: kids, idx: idx, closed: &closed, ctx: ctx, cancel: cancel}
+		if engine == "scorch-persister-waits-for-held-merger" {
+			vrt.WaitIdle()
+			g := &mergeHoldT{release: make(chan int, 1)}
+			g.armed.Store(true)
+			mergeHold.Store(g)
+			defer mergeHold.Store(nil)
+			released := false
+			e.release = func() {
+				if !released {
+					released = true
+					g.armed.Store(false)
+					vrt.Send(g.release, 1)
+				}
+			}
+		}
 		var wg vrt.WaitGroup
 		res := make([]string, len(names))
 		for i, n := range names {
@@ -273,6 +317,9 @@ func body(engine string, names []string) func(c *drv.Ctx) {
 		c.Observe(strings.Join(res, " "))
 		vrt.Free(func() {
 			cancel()
+			if e.release != nil {
+				e.release()
+			}
 			if !closed.Load() {
 				// index still open: it must be usable, then close cleanly
 				if _, err := idx.DocCount(); err != nil {
@@ -377,6 +424,12 @@ func Scenarios() []drv.Scenario {
 		mk("upsidedown-boltdb", t...)
 	}
 	mk("scorch", "delete-missing", "batch", "close")
+	// the persister's wait-for-the-merger pause (entered when the directory holds PersisterNapUnderNumFiles files)
+	mk("scorch-persister-waits-for-held-merger", "index", "close")
+	out[len(out)-1].Quick = []drv.Phase{{Bound: 1}}
+	mk("scorch-persister-waits-for-merger", "index", "batch", "close")
+	mk("scorch-persister-waits-for-held-merger", "index", "search", "close")
+	mk("scorch-persister-waits-for-merger", "forcemerge", "index", "close")
 	// an index alias (index_alias_impl.go): searches fan out to the members on their own goroutines while
 	// the member set is swapped, a member is closed, or the alias itself is closed
 	mk("alias", "search", "alias-swap", "close")
